@@ -529,7 +529,7 @@ func c03Node(t *rapid.T, id string) *sbom.Node {
 		if n.Hashes == nil {
 			n.Hashes = map[int32]string{}
 		}
-		n.Hashes[int32(rapid.IntRange(1, 17).Draw(t, "algo"))] = hx.TextPlainNE().Draw(t, "hv")
+		n.Hashes[int32(rapid.IntRange(1, 17).Draw(t, "algo"))] = hashValue(t, "hv", hx.TextPlainNE()) // mostly valid hash contents
 	}
 	if rapid.Bool().Draw(t, "purl?") {
 		n.Identifiers = setID(n.Identifiers, 1, "pkg:npm/"+tx.Draw(t, "purl"))
